@@ -521,6 +521,39 @@ fn search(oracle: &str, seed: u64) -> Outcome {
                 }}
                 None
             }
+            "second_accessor" => {
+                domain = "second() of Time / Timestamp / IntervalDT / OracleDate: sub-minute counts {0,1,499999,500000,999999 us + whole seconds} under whole-minute parts from 0 to the range limits (beyond 2^53 us), both signs";
+                exhaustive = false;
+                let subs: Vec<i64> = { let mut v = vec![]; for k in [0i64, 1, 29, 30, 59] { for us in [0i64, 1, 499_999, 500_000, 999_999] { v.push(k * 1_000_000 + us); } } v };
+                let mins: Vec<i64> = vec![0, 1, 1439, 1440, 150_119_987, 150_119_988, 288_000_000, 143_999_999_999];
+                for &m in &mins { for &sub in &subs { for neg in [false, true] {
+                    let total = m as i128 * 60_000_000 + sub as i128;
+                    if total > 8_640_000_000_000_000_000 { continue; }
+                    n_eval += 1;
+                    let v = if neg { -(total as i64) } else { total as i64 };
+                    let want = (if neg { -sub } else { sub }) as f64 / 1_000_000.0;
+                    let got = IntervalDT::try_from_usecs(v).unwrap().second();
+                    if got != Some(want) { fail!(format!("IntervalDT(usecs={}).second()", v), format!("Some({:?})", want), format!("{:?}", got)); }
+                }}}
+                for m in [0i64, 1, 719, 1439] { for &sub in &subs {
+                    n_eval += 1;
+                    let want = sub as f64 / 1_000_000.0;
+                    let t = m * 60_000_000 + sub;
+                    let got = Time::try_from_usecs(t).unwrap().second();
+                    if got != Some(want) { fail!(format!("Time(usecs={}).second()", t), format!("Some({:?})", want), format!("{:?}", got)); }
+                    for n in [DMIN, -1, 0, 19000, DMAX] {
+                        n_eval += 1;
+                        let got = Timestamp::try_from_usecs(n * DAY + t).unwrap().second();
+                        if got != Some(want) { fail!(format!("Timestamp(usecs={}).second()", n * DAY + t), format!("Some({:?})", want), format!("{:?}", got)); }
+                        if sub % 1_000_000 == 0 {
+                            let got = OracleDate::try_from_usecs(n * DAY + t).unwrap().second();
+                            if got != Some(want) { fail!(format!("OracleDate(usecs={}).second()", n * DAY + t), format!("Some({:?})", want), format!("{:?}", got)); }
+                        }
+                    }
+                }}
+                if date(0).second().is_some() || IntervalYM::try_from_months(5).unwrap().second().is_some() { fail!("Date / IntervalYM .second()".to_string(), "None".to_string(), "Some(..)".to_string()); }
+                None
+            }
             "time_tuple" => {
                 domain = "validity grid h 0..=25, mi 0..=61, s 0..=61, us in {0,1,999999,1000000,u32::MAX} + all seconds";
                 exhaustive = false;
@@ -778,7 +811,7 @@ fn esc(s: &str) -> String { s.replace('\\', "\\\\").replace('"', "\\\"") }
 fn main() {
     let args: Vec<String> = std::env::args().collect();
     if args.len() >= 2 && args[1] == "list" {
-        println!("date_extract date_from_ymd date_from_days date_add_sub_days date_day_of_week date_add_months ts_add_months last_day_of_month date_trunc date_round ts_trunc ts_round od_trunc od_round ts_split time_tuple time_add_interval interval_ctor od_from_timestamp od_add_days ts_add_days naive_carry parse_grid format_grid and_hms linear_arith mixed_cmp");
+        println!("date_extract date_from_ymd date_from_days date_add_sub_days date_day_of_week date_add_months ts_add_months last_day_of_month date_trunc date_round ts_trunc ts_round od_trunc od_round ts_split time_tuple time_add_interval interval_ctor od_from_timestamp od_add_days ts_add_days naive_carry parse_grid format_grid and_hms linear_arith mixed_cmp second_accessor");
         return;
     }
     if args.len() >= 3 && args[1] == "search" {
